@@ -217,7 +217,37 @@ def run(ctx):
                         if rng.random() < 0.15:
                             lo = hi = v                 # degenerate interval: only the current value is legal
                         bounds = [lo, hi]
+                    if bounds is None and isnum(v) and rng.random() < 0.15 and getattr(run, "_last_bounds", None) is not None:
+                        # the very list object an earlier Parameter was given its bounds in (if it still fits): the two
+                        # Parameters must not share their bounds through it
+                        lb = run._last_bounds
+                        if (lb[0] is None or lb[0] <= v) and (lb[1] is None or v <= lb[1]):
+                            bounds = lb
+                            ctx.bucket("bounds_list_object_given_to_two_parameters")
+                    if bounds is not None:
+                        run._last_bounds = bounds
+                    shared_with = None
+                    if bounds is not None and bounds is getattr(run, "_last_bounds_owner", (None, None))[0]:
+                        shared_with = run._last_bounds_owner[1]
                     p = P(v, bounds=bounds, label="p%d" % len(params) if rng.random() < 0.5 else None)
+                    if bounds is not None:
+                        run._last_bounds_owner = (bounds, p)
+                    if shared_with is not None and isnum(shared_with.get()) and shared_with.get() != v:
+                        # tighten the earlier Parameter's bound between the two values: the new one must keep its own
+                        want_b = (p.min_bound, p.max_bound)
+                        mid = (shared_with.get() + v) / 2
+                        try:
+                            if v < shared_with.get():
+                                shared_with.min_bound = mid
+                            else:
+                                shared_with.max_bound = mid
+                        except Exception:  # noqa: BLE001
+                            pass
+                        if (p.min_bound, p.max_bound) != want_b or not bounds_hold(p):
+                            ctx.violation(f"changing a bound of one Parameter changed the bounds of another that had been "
+                                          f"given the same bounds list: {want_b} -> {(p.min_bound, p.max_bound)}, value "
+                                          f"{p.get()}", case={"history": trace}, mechanism="bounds_shared_between_parameters",
+                                          monitor="driver: Parameter bounds independence")
                     params.append((p, role))
                     if rng.random() < 0.4:
                         pdict["k%d" % len(params)] = p
